@@ -70,6 +70,11 @@ def generated_programs(rng, n):
     # the hand-written analyzer cases (witnesses of repaired findings and rule corners; well- and ill-typed)
     for case in faults.fixed_cases():
         out.append((f"fixed-{case[0]}", b(case[1])))
+    # every escape sequence of string literals, both quote kinds: the prefix stream cuts the text after every character of
+    # every escape (seed S-C05j: the end of the input inside the digits of a numeric escape)
+    for i, esc in enumerate(['\\x41', '\\u00e9', '\\U0001F600', '\\101', '\\n', '\\"', "\\'", '\\\\', '\\t\\r\\b\\a\\f\\v']):
+        out.append((f"esc-d{i}", b('fn main() { println("a' + esc + '"); }')))
+        out.append((f"esc-s{i}", b("fn main() { println('" + esc + "z'); }")))
     from props.C14 import template_programs
     for i, (mods, _) in enumerate(template_programs()):
         if i % 4 == 0:
